@@ -74,6 +74,19 @@ fn main() {
     checked += 1;
     let c = Exec::shell("printf '%s|' \"$0\" \"$#\"; echo a   b").stdout(Redirection::Pipe).capture().unwrap();
     if c.stdout_str().trim() != "sh|0|a b" { println!("FAIL: Exec::shell output {:?}", c.stdout_str()); bad += 1; }
+    // ... byte for byte: a command string, an argument and an environment value that are not valid UTF-8 reach the child unchanged
+    {
+        use std::os::unix::ffi::OsStrExt;
+        checked += 1;
+        let raw: &[u8] = b"caf\xe9 \xff\xfe na\xefve";
+        let mut script = b"printf '%s' '".to_vec(); script.extend_from_slice(raw); script.push(b'\'');
+        let c = Exec::shell(std::ffi::OsStr::from_bytes(&script)).stdout(Redirection::Pipe).capture().unwrap();
+        if c.stdout != raw { println!("FAIL: Exec::shell with a command string that is not valid UTF-8: the shell printed {:?}, the string contains {:?}", c.stdout, raw); bad += 1; }
+        checked += 1;
+        let c = Exec::cmd("sh").arg("-c").arg("printf '%s|%s' \"$1\" \"$V\"").arg("sh").arg(std::ffi::OsStr::from_bytes(raw)).env("V", std::ffi::OsStr::from_bytes(raw)).stdout(Redirection::Pipe).capture().unwrap();
+        let mut want = raw.to_vec(); want.push(b'|'); want.extend_from_slice(raw);
+        if c.stdout != want { println!("FAIL: an argument and an environment value that are not valid UTF-8 arrive as {:?}, expected {:?}", c.stdout, want); bad += 1; }
+    }
     println!("{} command descriptions checked against the model, {} mismatches", checked, bad);
     if bad > 0 { std::process::exit(1); }
     println!("ok");
